@@ -353,7 +353,12 @@ def run_obligation(ob, tier, keep_work=False):
     elif solver == "cvc5":
         cmd += ["--cvc5"]
     r.cmds.append(" ".join(cmd))
-    rc, out, err, s = run(cmd, timeout, mem)
+    # cbmc writes the CNF for the external SAT solver to $TMPDIR and leaves it behind when it is killed on a timeout:
+    # keep temporaries inside the obligation's work directory and remove them afterwards
+    tmpd = os.path.join(wd, "tmp")
+    os.makedirs(tmpd, exist_ok=True)
+    rc, out, err, s = run(cmd, timeout, mem, env={"TMPDIR": tmpd})
+    shutil.rmtree(tmpd, ignore_errors=True)
     r.solver_s = s
     if rc == "timeout":
         return undecided("cbmc timeout after %ds" % timeout, err)
